@@ -349,6 +349,9 @@ func (prog Progress) focusedTransform(n datamodel.Node, na datamodel.NodeAssembl
 			} else {
 				return fmt.Errorf("transform: cannot navigate path segment %q at %q because a list is here", seg, prog.Path)
 			}
+		} else if ti < 0 {
+			// Only "-" means append; a negative number must not be mistaken for the append marker used below.
+			return fmt.Errorf("transform: cannot navigate path segment %q at %q because it is beyond the list bounds", seg, prog.Path)
 		}
 		// Copy children over.  Replace the target (preserving its current position!) while doing this, if found.
 		//  Note that we don't recurse into copying children (assuming AssignNode doesn't); this is as shallow/COW as the AssignNode implementation permits.
